@@ -1,12 +1,27 @@
-use nucleo_matcher::*;
+use std::sync::atomic::*;
+use nucleo::verif::*;
 fn main(){
-    let mut cfg = Config::DEFAULT; cfg.set_match_paths();
-    let h: Vec<char> = ":\u{627}Bb\u{627}:bB:B_b:\u{434}B\u{434}\u{627}Bbb_b\u{627}b:b\u{627}B\u{434}\u{434}bb:b\u{434}\u{434}\u{434}:\u{627}b\u{434}\u{627}BB\u{627}B:_:".chars().collect();
-    let n: Vec<char> = "b\u{434}\u{627}bb\u{627}b:".chars().collect();
-    for pp in [false,true] {
-        cfg.prefer_prefix = pp;
-        let mut m = Matcher::new(cfg.clone());
-        let mut idx=vec![];
-        println!("pp={pp} match={:?} indices={:?} {:?}", m.fuzzy_match(Utf32Str::Unicode(&h), Utf32Str::Unicode(&n)), m.fuzzy_indices(Utf32Str::Unicode(&h), Utf32Str::Unicode(&n), &mut idx), idx);
-    }
+    let n: usize = std::env::args().nth(1).unwrap().parse().unwrap();
+    const GAS: i64 = i64::MAX;
+    let val: Vec<AtomicI64> = (0..n).map(|_| AtomicI64::new(GAS)).collect();
+    let nsolid = AtomicI64::new(0);
+    let mut ids: Vec<u32> = (0..n as u32).collect();
+    let flag = AtomicBool::new(false);
+    let cmp = |a: &u32, b: &u32| {
+        let (x, y) = (*a as usize, *b as usize);
+        let (vx, vy) = (val[x].load(Ordering::Relaxed), val[y].load(Ordering::Relaxed));
+        if vx == GAS && vy == GAS { val[x].store(nsolid.fetch_add(1, Ordering::Relaxed), Ordering::Relaxed); }
+        let (vx, vy) = (val[x].load(Ordering::Relaxed), val[y].load(Ordering::Relaxed));
+        vx < vy
+    };
+    // adversary run on a big stack so that it survives
+    let pool = rayon::ThreadPoolBuilder::new().num_threads(1).stack_size(1<<30).build().unwrap();
+    pool.install(|| par_quicksort(&mut ids, cmp, &flag));
+    let mut next = nsolid.load(Ordering::Relaxed);
+    let keys: Vec<u32> = val.iter().map(|v| { let x=v.load(Ordering::Relaxed); if x==GAS { next+=1; next as u32 } else { x as u32 } }).collect();
+    println!("keys built, now sorting static input of {n} u32 keys with a plain comparator on a default pool");
+    let mut v = keys.clone();
+    let pool2 = rayon::ThreadPoolBuilder::new().num_threads(4).build().unwrap();
+    let r = pool2.install(|| par_quicksort(&mut v, |a,b| a<b, &flag));
+    println!("returned {r} sorted={}", v.windows(2).all(|w| w[0]<=w[1]));
 }
